@@ -1537,13 +1537,18 @@ def propagate_fresh_constants(modules, baseline=None):
                     if isinstance(x, ast.Name) and isinstance(x.ctx, (ast.Store, ast.Del)):
                         top_stores[x.id] = top_stores.get(x.id, 0) + 1
         for st in m.tree.body:
+            pairs_ = []
             if isinstance(st, ast.Assign) and len(st.targets) == 1 and isinstance(st.targets[0], ast.Name) and _hoistable(st.value):
-                nm = st.targets[0].id
+                pairs_ = [(st.targets[0].id, st.value)]
+            elif isinstance(st, ast.Assign) and len(st.targets) == 1 and isinstance(st.targets[0], ast.Tuple) and isinstance(st.value, ast.Tuple) \
+                    and len(st.targets[0].elts) == len(st.value.elts) and all(isinstance(t_, ast.Name) for t_ in st.targets[0].elts) and all(_hoistable(v_) for v_ in st.value.elts):
+                pairs_ = [(t_.id, v_) for t_, v_ in zip(st.targets[0].elts, st.value.elts)]       # A, B = 'a', 'b'
+            for nm, val_ in pairs_:
                 if '%s.%s' % (m.name, nm) in baseline or nm in global_decl or top_stores.get(nm, 0) != 1 or stored_attr.get(nm):
                     continue
                 if nm.startswith('__') and nm.endswith('__'):
                     continue
-                binds[nm] = st.value
+                binds[nm] = val_
         # a candidate may be defined in terms of an earlier one
         for _ in range(3):
             for nm, v in list(binds.items()):
